@@ -106,6 +106,18 @@ def valid_cases(rnd, tier):
             k += 1
             body = [97 + (i % 26) for i in range(n)]
             add(owner, 30, "TXT", '"%s"' % txt_escape(body), rec(owner, 16, 30, txt=body), k)
+    # boundary values of two fields at once: the longest owners with the largest data of every type
+    for owner in (MAXNAME, LONG250, OWNERS[2]):
+        for n in (3570, 3571, 3700, 3825):
+            k += 1
+            body = [97 + (i % 26) for i in range(n)]
+            add(owner, 2 ** 32 - 1, "TXT", '"%s"' % txt_escape(body), rec(owner, 16, 2 ** 32 - 1, txt=body), k)
+        for dl in (48, 64, 512):
+            k += 1
+            dig = [(i * 11 + dl) % 256 for i in range(dl)]
+            add(owner, 0, "DS", "65535 255 255 %s" % "".join("%02X" % x for x in dig), rec(owner, 43, 0, fixed=[255, 255, 255, 255] + dig), k)
+        k += 1
+        add(owner, 2 ** 32 - 1, "AAAA", "ffff:ffff:ffff:ffff:ffff:ffff:ffff:ffff", rec(owner, 28, 2 ** 32 - 1, fixed=[255] * 16), k)
     for body in ([0], [255], [34], [92], [32, 32], [9], [127, 128], L("v=spf1 -all"), [0, 1, 2, 34, 92, 200, 255] * 40):
         k += 1
         add("t.ex.", 30, "TXT", '"%s"' % txt_escape(body), rec("t.ex.", 16, 30, txt=body), k)
